@@ -6,6 +6,7 @@
 -/
 import AllianceModel
 import AllianceProofs.ScopeCheck
+import AllianceProofs.InvCheck
 open Alliance Alliance.Trace
 
 /-- components not predicted for a given operation kind -/
@@ -44,6 +45,10 @@ def compareStep (idx : Nat) (pre : World) (op : XOp) (wd : List (ValId × Coins)
     if obsRes = "ok" && wd.all (fun p => p.2.all (fun c => decide (0 ≤ c.2))) then
       for msg in theoremCheckC01 o pre post do
         out := out ++ [s!"step {idx} diverge component=theorem.C01 model=[{msg}] impl=[observed state]"]
+    -- INV-I / INV-R: the invariants of `reach_ix` / `reach_rx` on the observed states, `step_ix` / `step_rx` on the step
+    if obsRes = "ok" then
+      for (comp, msg) in theoremCheckInv pre post do
+        out := out ++ [s!"step {idx} diverge component={comp} model=[{msg}] impl=[observed state]"]
   | .reimport => pure ()
   if out.isEmpty then return [s!"step {idx} ok"]
   return out
